@@ -99,4 +99,77 @@ theorem start_after_close_rejected (c : Client) (ops : List COp) (hc : c.closed 
     after_close_rejects _ hcl id raw h
   rw [e]
 
+/-- no operation other than Close ever closes the connection or changes the closed flag -/
+theorem step_no_connClose (S) (c : Client) (hi : TInv c) (hf : FromStarts S c) (op : COp) (hop : op ≠ .close) :
+    COut.connClose ∉ (c.step op).2.2 ∧ (c.step op).1.closed = c.closed := by
+  cases op with
+  | start id raw h =>
+    cases h with
+    | some h =>
+      obtain ⟨_, _, _, hcl, hw, _⟩ := start_spec S c hi hf id raw h
+      refine ⟨fun hm => ?_, hcl⟩
+      have := hw _ hm
+      cases this
+    | none =>
+      show COut.connClose ∉ (c.start id raw none).2.2 ∧ (c.start id raw none).1.closed = c.closed
+      unfold Client.start
+      by_cases hc : c.closed = true
+      · rw [if_pos hc]; exact ⟨by simp, rfl⟩
+      · rw [if_neg hc]
+        refine ⟨by simp, ?_⟩
+        show (c.connWrite raw).1.closed = c.closed
+        unfold Client.connWrite; split <;> rfl
+  | deliver d =>
+    obtain ⟨_, _, _, hcl, ho⟩ := deliver_spec S c hi hf d
+    have e : c.step (.deliver d) = ((c.deliver d).1, none, (c.deliver d).2) := rfl
+    rw [e]; dsimp only; exact ⟨ho.noConnClose, hcl⟩
+  | tick t =>
+    obtain ⟨_, _, _, hcl, ho⟩ := tick_spec S c hi hf t
+    have e : c.step (.tick t) = ((c.tick t).1, none, (c.tick t).2) := rfl
+    rw [e]; dsimp only; exact ⟨ho.noConnClose, hcl⟩
+  | clock t => exact ⟨by simp [Client.step], rfl⟩
+  | failWrite id => exact ⟨by simp [Client.step], rfl⟩
+  | setRTO r => exact ⟨by simp [Client.step], rfl⟩
+  | close => exact absurd rfl hop
+
+def connCloses (outs : List COut) : Nat := (outs.filter (fun x => x == COut.connClose)).length
+
+/-- "the connection has been closed exactly once … (then never)", for whole histories: in every history of an open
+    client — any operations, any number of Close calls anywhere — the connection is closed at most once, and not at
+    all as long as no Close has been called -/
+theorem conn_closed_at_most_once (ops : List COp) : ∀ (S) (c : Client), TInv c → FromStarts S c → c.closed = false →
+    connCloses (allOuts (run c ops).2) ≤ 1 ∧
+    ((∀ op ∈ ops, op ≠ .close) → connCloses (allOuts (run c ops).2) = 0) := by
+  induction ops with
+  | nil => intro S c _ _ _; exact ⟨by simp [run, allOuts, connCloses], fun _ => by simp [run, allOuts, connCloses]⟩
+  | cons op r ih =>
+    intro S c hi hf hc
+    have hsplit : connCloses (allOuts (run c (op :: r)).2) =
+        connCloses (c.step op).2.2 + connCloses (allOuts (run (c.step op).1 r).2) := by
+      simp only [run, allOuts, connCloses, List.flatMap_cons, List.filter_append, List.length_append]
+    rw [hsplit]
+    by_cases hop : op = .close
+    · subst hop
+      obtain ⟨k, _⟩ := close_once c
+      obtain ⟨_, _, _, k4⟩ := k hc
+      obtain ⟨b1, b2⟩ := close_establishes c hc
+      have hz := (closed_forever r (c.close).1 b1 b2).1
+      have e : c.step .close = c.close := rfl
+      rw [e, hz]
+      refine ⟨?_, fun hall => absurd rfl (hall _ List.mem_cons_self)⟩
+      have : connCloses (c.close).2.2 = if c.closeConn then 1 else 0 := k4
+      rw [this]; simp only [connCloses, List.filter_nil, List.length_nil]
+      split <;> omega
+    · obtain ⟨n1, n2⟩ := step_no_connClose S c hi hf op hop
+      obtain ⟨s1, s2, _⟩ := step_spec S c hi hf op
+      have h0 : connCloses (c.step op).2.2 = 0 := by
+        unfold connCloses
+        rw [List.length_eq_zero_iff, List.filter_eq_nil_iff]
+        intro x hx hb
+        have : x = COut.connClose := by simpa using hb
+        exact n1 (this ▸ hx)
+      obtain ⟨i1, i2⟩ := ih _ (c.step op).1 s1 s2 (by rw [n2]; exact hc)
+      rw [h0]
+      exact ⟨by omega, fun hall => by rw [i2 (fun o ho => hall o (List.mem_cons_of_mem _ ho))]⟩
+
 end Stun.C15
